@@ -93,6 +93,13 @@ func ruleR15_1(r *Run) {
 			}
 		}
 	}
+	if cmp == nil {
+		// the comparison may sit in a verifying helper (verifyChecksum(cdata, checksum, stored) error): the helper is
+		// judged the way the deserialiser is, and the deserialiser has to act on its verdict
+		if r15_1Helper(r, f, kind, s, crc) {
+			return
+		}
+	}
 	if !r.check(cmp != nil, "DeserializeData:crc-compared", "the recomputed CRC32 is compared with the stored one", "the deserialiser never compares a recomputed CRC32 with the stored checksum", w.fpos(f)) {
 		return
 	}
@@ -129,6 +136,117 @@ func ruleR15_1(r *Run) {
 	r.check(p1 == nil && p2 == nil, "DeserializeData:crc-before-payload",
 		"for a CRC32-protected value every success exit is reached only through the checksum comparison's equal edge",
 		"a CRC32-protected value can be returned as data without its checksum having been verified (corruption goes undetected on that path)", w.fpos(f), w.renderPath(bad)...)
+}
+
+// r15_1Helper: the CRC comparison lives in an error-returning helper of the deserialiser.  Decides the rule for that
+// shape and returns true; returns false when there is no such helper.
+func r15_1Helper(r *Run, f *ssa.Function, kind ssa.Value, s *SCCP, crc int64) bool {
+	w := r.W
+	isCRCCall := func(v ssa.Value) bool {
+		c, ok := v.(*ssa.Call)
+		return ok && c.Call.StaticCallee() != nil && (strings.HasPrefix(c.Call.StaticCallee().String(), "hash/crc32.Checksum") || wholeSliceCRCHelper(c.Call.StaticCallee()))
+	}
+	for _, call := range calls(f) {
+		g := staticCallee(call)
+		cc, isCall := call.(*ssa.Call)
+		if g == nil || !isCall || g == f || g.Pkg != f.Pkg || len(g.Blocks) == 0 || errResultIndex(g) < 0 {
+			continue
+		}
+		var cmp *ssa.If
+		eqEdge := 0
+		for _, b := range g.Blocks {
+			ifi, ok := b.Instrs[len(b.Instrs)-1].(*ssa.If)
+			if !ok {
+				continue
+			}
+			bo, ok := ifi.Cond.(*ssa.BinOp)
+			if !ok || (bo.Op != token.NEQ && bo.Op != token.EQL) {
+				continue
+			}
+			if isCRCCall(bo.X) || isCRCCall(bo.Y) {
+				cmp = ifi
+				eqEdge = 0
+				if bo.Op == token.NEQ {
+					eqEdge = 1
+				}
+			}
+		}
+		if cmp == nil {
+			continue
+		}
+		name := g.Name()
+		r.check(true, "DeserializeData:crc-compared", "the recomputed CRC32 is compared with the stored one (in "+name+")", "", w.fpos(g))
+		// in the helper: mismatch → error; with the kind CRC32 every nil-error return lies behind the comparison
+		mis := cmp.Block().Succs[1-eqEdge]
+		okErr := false
+		for _, in := range mis.Instrs {
+			if ret, ok := in.(*ssa.Return); ok && isErrorExit(ret) {
+				okErr = true
+			}
+		}
+		r.check(okErr, "DeserializeData:crc-mismatch-is-error", "a checksum mismatch returns an error", "a checksum mismatch does not lead to an error return", w.pos(cmp.Pos()))
+		env := &AEnv{Params: map[*ssa.Parameter]AVal{}}
+		for i, prm := range g.Params {
+			if typeIs(prm.Type(), "dvid", "Checksum") && i < len(cc.Call.Args) && stripConv(cc.Call.Args[i]) == stripConv(kind) {
+				env.Params[prm] = AVal{K: AInt, I: crc}
+			}
+		}
+		gs := runSCCP(g, env)
+		isCmp := func(in ssa.Instruction) bool { return in == ssa.Instruction(cmp) }
+		gp := findPath(g, nil, isCmp, successExit, gs.EdgeFeasible)
+		var gp2 []ssa.Instruction
+		if len(mis.Instrs) > 0 && !successExit(mis.Instrs[0]) {
+			gp2 = findPath(g, mis.Instrs[0], nil, successExit, gs.EdgeFeasible)
+		}
+		// in the deserialiser: every success exit lies behind the call, and a non-nil verdict reaches no success exit
+		succ := func(in ssa.Instruction) bool {
+			ret, ok := in.(*ssa.Return)
+			return ok && !isErrorExit(ret) && kind.(*ssa.Extract).Block().Dominates(ret.Block())
+		}
+		p1 := findPath(f, nil, func(in ssa.Instruction) bool { return in == ssa.Instruction(cc) }, succ, s.EdgeFeasible)
+		var errV ssa.Value = cc
+		if cc.Type() != nil && !isErrorType(cc.Type()) {
+			for _, ref := range *cc.Referrers() {
+				if ex, ok := ref.(*ssa.Extract); ok && isErrorType(ex.Type()) {
+					errV = ex
+				}
+			}
+		}
+		s2 := runSCCP(f, &AEnv{Atom: func(v ssa.Value) (AVal, bool) {
+			if v == kind {
+				return AVal{K: AInt, I: crc}, true
+			}
+			if bo, ok := v.(*ssa.BinOp); ok && (bo.Op == token.NEQ || bo.Op == token.EQL) {
+				for _, pr := range [][2]ssa.Value{{bo.X, bo.Y}, {bo.Y, bo.X}} {
+					if isNilConst(pr[1]) && sameErrValue(pr[0], errV) {
+						return aBool(bo.Op == token.NEQ), true
+					}
+				}
+			}
+			return unknown, false
+		}})
+		p2 := findPath(f, cc, nil, func(x ssa.Instruction) bool {
+			ret, ok := x.(*ssa.Return)
+			if !ok || isErrorExit(ret) {
+				return false
+			}
+			if idx := errResultIndex(f); idx >= 0 && sameErrValue(retOperand(ret, idx), errV) {
+				return false
+			}
+			return true
+		}, s2.EdgeFeasible)
+		bad := gp
+		for _, p := range [][]ssa.Instruction{gp2, p1, p2} {
+			if bad == nil {
+				bad = p
+			}
+		}
+		r.check(gp == nil && gp2 == nil && p1 == nil && p2 == nil, "DeserializeData:crc-before-payload",
+			"for a CRC32-protected value every success exit is reached only through "+name+", whose nil verdict lies behind the comparison's equal edge",
+			"a CRC32-protected value can be returned as data without its checksum having been verified (corruption goes undetected on that path)", w.fpos(f), w.renderPath(bad)...)
+		return true
+	}
+	return false
 }
 
 // shiftMask describes v = (x & mask) << shl or (x >> shr) & mask patterns.
@@ -225,21 +343,28 @@ func ruleR15_2(r *Run) {
 		return
 	}
 	wEnd, wLo, wHi := "", int64(-1), int64(-1)
-	for _, c := range calls(ser) {
+	callsWithHelpers := func(top *ssa.Function) []ssa.CallInstruction {
+		var out []ssa.CallInstruction
+		for _, g := range withHelpers(top) {
+			out = append(out, calls(g)...)
+		}
+		return out
+	}
+	for _, c := range callsWithHelpers(ser) {
 		if c.Common().IsInvoke() || c.Common().StaticCallee() == nil {
 			continue
 		}
 		if c.Common().StaticCallee().Name() == "PutUint32" {
 			wEnd = byteOrderOf(c.Common().Args[0])
 			if sl, ok := c.Common().Args[1].(*ssa.Slice); ok {
-				wLo, _ = constInt(sl.Low)
-				wHi, _ = constInt(sl.High)
+				wLo, _ = constIntExpr(sl.Low)
+				wHi, _ = constIntExpr(sl.High)
 			}
 		}
 	}
 	rEnd := ""
 	var readSizes []int64
-	for _, c := range calls(des) {
+	for _, c := range callsWithHelpers(des) {
 		if callee := c.Common().StaticCallee(); callee != nil && callee.String() == "encoding/binary.Read" {
 			rEnd = byteOrderOf(c.Common().Args[1])
 			if mi, ok := c.Common().Args[2].(*ssa.MakeInterface); ok {
@@ -256,7 +381,18 @@ func ruleR15_2(r *Run) {
 		"format byte at 0, 4-byte CRC at 1..5 in both directions", fmt.Sprintf("writer puts the CRC at [%d:%d]; reader consumes fields of sizes %v", wLo, wHi, readSizes), w.fpos(ser))
 	// LZ4 prefix: writer PutUint32(byteData[0:4]) + Compress into [4:]; reader Uint32(cdata[0:4]) + Uncompress(cdata[4:])
 	sd := w.fn("dvid", "SerializeData")
-	wp, rp := lz4Prefix(sd, "PutUint32", "Compress"), lz4Prefix(des, "Uint32", "Uncompress")
+	lz4PrefixWithHelpers := func(top *ssa.Function, intFn, lzFn string) string {
+		if top == nil {
+			return ""
+		}
+		for _, g := range withHelpers(top) {
+			if s := lz4Prefix(g, intFn, lzFn); s != "" {
+				return s
+			}
+		}
+		return ""
+	}
+	wp, rp := lz4PrefixWithHelpers(sd, "PutUint32", "Compress"), lz4PrefixWithHelpers(des, "Uint32", "Uncompress")
 	r.check(wp == rp && wp != "", "envelope:lz4-length-prefix", "LZ4 prefix "+wp+" on both sides", fmt.Sprintf("LZ4 length prefix differs: writer %q, reader %q", wp, rp), w.fpos(des))
 }
 
@@ -332,7 +468,17 @@ func lz4Prefix(f *ssa.Function, intFn, lzFn string) string {
 
 // switchConsts: the integer constants a value of the named type is compared with (== or !=, i.e. switch cases and
 // if/else-if chains alike) in f.
-func switchConsts(f *ssa.Function, typName string) map[int64]bool {
+func switchConsts(top *ssa.Function, typName string) map[int64]bool {
+	out := map[int64]bool{}
+	for _, f := range withHelpers(top) {
+		for k := range switchConstsIn(f, typName) {
+			out[k] = true
+		}
+	}
+	return out
+}
+
+func switchConstsIn(f *ssa.Function, typName string) map[int64]bool {
 	out := map[int64]bool{}
 	for _, b := range f.Blocks {
 		for _, in := range b.Instrs {
@@ -400,89 +546,113 @@ func ruleR15_4(r *Run) {
 		r.violation("dvid.DeserializeData", "not found", "-")
 		return
 	}
-	n, viol := checkBufferBounds(f, nil)
-	var wit []string
-	for _, v := range viol {
-		wit = append(wit, fmt.Sprintf("%s: %s %s of %s", w.pos(v.In.Pos()), v.What, shortForm(v.Bound), shortForm(v.Buffer)))
-	}
-	r.check(len(viol) == 0, "DeserializeData:bounds",
-		fmt.Sprintf("%d slice/index expressions on input-derived buffers, each dominated by a length comparison", n),
-		fmt.Sprintf("%d of %d slice/index expressions on the input are not dominated by a comparison with its length: a short or malformed value makes deserialisation panic", len(viol), n), w.fpos(f), wit...)
-	// type assertions on decoded values must be comma-ok
-	bad := ""
-	nta := 0
-	for _, b := range f.Blocks {
-		for _, in := range b.Instrs {
-			if ta, ok := in.(*ssa.TypeAssert); ok {
-				// values handed back by a sync.Pool are the program's own, not decoded input
-				if c, isCall := ta.X.(*ssa.Call); isCall {
-					if callee := c.Call.StaticCallee(); callee != nil && callee.Pkg != nil && callee.Pkg.Pkg.Path() == "sync" {
-						continue
+	// the deserialiser may be a pipeline of helpers (readStoredChecksum, verifyChecksum, uncompressData): each part of
+	// this rule is a per-function statement and is made for every one of them
+	top := f
+	nerrAll := 0
+	var prefixFn *ssa.Function
+	for _, f := range withHelpers(top) {
+		tag := "DeserializeData"
+		if f != top {
+			tag = f.Name()
+		}
+		n, viol := checkBufferBounds(f, nil)
+		var wit []string
+		for _, v := range viol {
+			wit = append(wit, fmt.Sprintf("%s: %s %s of %s", w.pos(v.In.Pos()), v.What, shortForm(v.Bound), shortForm(v.Buffer)))
+		}
+		r.check(len(viol) == 0, tag+":bounds",
+			fmt.Sprintf("%d slice/index expressions on input-derived buffers, each dominated by a length comparison", n),
+			fmt.Sprintf("%d of %d slice/index expressions on the input are not dominated by a comparison with its length: a short or malformed value makes deserialisation panic", len(viol), n), w.fpos(f), wit...)
+		// type assertions on decoded values must be comma-ok
+		bad := ""
+		nta := 0
+		for _, b := range f.Blocks {
+			for _, in := range b.Instrs {
+				if ta, ok := in.(*ssa.TypeAssert); ok {
+					// values handed back by a sync.Pool are the program's own, not decoded input
+					if c, isCall := ta.X.(*ssa.Call); isCall {
+						if callee := c.Call.StaticCallee(); callee != nil && callee.Pkg != nil && callee.Pkg.Pkg.Path() == "sync" {
+							continue
+						}
 					}
-				}
-				nta++
-				if !ta.CommaOk {
-					bad = w.pos(ta.Pos())
+					nta++
+					if !ta.CommaOk {
+						bad = w.pos(ta.Pos())
+					}
 				}
 			}
 		}
-	}
-	r.check(bad == "", "DeserializeData:type-assertions", fmt.Sprintf("%d type assertions, all comma-ok", nta),
-		"a decoded value is type-asserted without the comma-ok form: an unexpected concrete type (e.g. a colour JPEG) panics", bad)
-	// every error produced by a call reaches an error exit when non-nil
-	nerr := 0
-	var leak []ssa.Instruction
-	for _, b := range f.Blocks {
-		for _, in := range b.Instrs {
-			var errV ssa.Value
-			switch x := in.(type) {
-			case *ssa.Call:
-				if isErrorType(x.Type()) {
-					errV = x
-				}
-			case *ssa.Extract:
-				if isErrorType(x.Type()) {
-					if _, ok := x.Tuple.(*ssa.Call); ok {
+		r.check(bad == "", tag+":type-assertions", fmt.Sprintf("%d type assertions, all comma-ok", nta),
+			"a decoded value is type-asserted without the comma-ok form: an unexpected concrete type (e.g. a colour JPEG) panics", bad)
+		// every error produced by a call reaches an error exit when non-nil
+		nerr := 0
+		var leak []ssa.Instruction
+		for _, b := range f.Blocks {
+			for _, in := range b.Instrs {
+				var errV ssa.Value
+				switch x := in.(type) {
+				case *ssa.Call:
+					if isErrorType(x.Type()) {
 						errV = x
 					}
-				}
-			}
-			if errV == nil {
-				continue
-			}
-			nerr++
-			env := &AEnv{Atom: func(v ssa.Value) (AVal, bool) {
-				if bo, ok := v.(*ssa.BinOp); ok && (bo.Op == token.NEQ || bo.Op == token.EQL) {
-					for _, pr := range [][2]ssa.Value{{bo.X, bo.Y}, {bo.Y, bo.X}} {
-						if isNilConst(pr[1]) && sameErrValue(pr[0], errV) {
-							return aBool(bo.Op == token.NEQ), true
+				case *ssa.Extract:
+					if isErrorType(x.Type()) {
+						if _, ok := x.Tuple.(*ssa.Call); ok {
+							errV = x
 						}
 					}
 				}
-				return unknown, false
-			}}
-			s := runSCCP(f, env)
-			p := findPath(f, in, nil, func(x ssa.Instruction) bool {
-				ret, ok := x.(*ssa.Return)
-				if !ok || isErrorExit(ret) {
-					return false
+				if errV == nil {
+					continue
 				}
-				// returning the error value itself is an error exit under the assumption
-				if idx := errResultIndex(f); idx >= 0 && sameErrValue(retOperand(ret, idx), errV) {
-					return false
+				nerr++
+				env := &AEnv{Atom: func(v ssa.Value) (AVal, bool) {
+					if bo, ok := v.(*ssa.BinOp); ok && (bo.Op == token.NEQ || bo.Op == token.EQL) {
+						for _, pr := range [][2]ssa.Value{{bo.X, bo.Y}, {bo.Y, bo.X}} {
+							if isNilConst(pr[1]) && sameErrValue(pr[0], errV) {
+								return aBool(bo.Op == token.NEQ), true
+							}
+						}
+					}
+					return unknown, false
+				}}
+				s := runSCCP(f, env)
+				p := findPath(f, in, nil, func(x ssa.Instruction) bool {
+					ret, ok := x.(*ssa.Return)
+					if !ok || isErrorExit(ret) {
+						return false
+					}
+					// returning the error value itself is an error exit under the assumption
+					if idx := errResultIndex(f); idx >= 0 && sameErrValue(retOperand(ret, idx), errV) {
+						return false
+					}
+					return true
+				}, s.EdgeFeasible)
+				if p != nil {
+					leak = p
 				}
-				return true
-			}, s.EdgeFeasible)
-			if p != nil {
-				leak = p
+			}
+		}
+		nerrAll += nerr
+		r.check(leak == nil, tag+":errors-propagate",
+			fmt.Sprintf("%d error results of decoder calls; each, when non-nil, can only reach an error exit", nerr),
+			"an error reported by a decoding step can be ignored and the (possibly truncated or corrupted) bytes returned as data", w.fpos(f), w.renderPath(leak)...)
+		for _, c := range calls(f) {
+			callee := c.Common().StaticCallee()
+			if callee != nil && callee.Name() == "Uint32" && strings.Contains(callee.String(), "binary") {
+				if lo, hi, _, ok := sliceRegion(c.Common().Args[len(c.Common().Args)-1]); ok && lo == 0 && hi == 4 {
+					prefixFn = f
+				}
 			}
 		}
 	}
-	r.check(leak == nil && nerr >= 4, "DeserializeData:errors-propagate",
-		fmt.Sprintf("%d error results of decoder calls; each, when non-nil, can only reach an error exit", nerr),
-		"an error reported by a decoding step can be ignored and the (possibly truncated or corrupted) bytes returned as data", w.fpos(f), w.renderPath(leak)...)
+	r.check(nerrAll >= 4, "DeserializeData:decoder-errors", fmt.Sprintf("%d", nerrAll), "too few error results of decoder calls found: rule needs review", w.fpos(top))
 	// LZ4 legacy raw copy only for a zero length prefix
 	var prefix ssa.Value
+	if prefixFn != nil {
+		f = prefixFn
+	}
 	for _, c := range calls(f) {
 		callee := c.Common().StaticCallee()
 		if callee != nil && callee.Name() == "Uint32" && strings.Contains(callee.String(), "binary") {
